@@ -44,6 +44,9 @@ pub struct World {
     pub subscription_root: Option<usize>,
     /// injected faults, keyed by (node, field name)
     pub faults: HashMap<(usize, String), Fault>,
+    /// dynamic schemas only: resolvers hand lists of leaf values over as one plain `Value::List`
+    /// instead of `FieldValue::list` (both are documented ways to return a list)
+    pub plain_leaf_lists: bool,
 }
 
 impl World {
@@ -61,6 +64,9 @@ impl World {
                 s.push_str(&format!("{}={} ", k, show_wval(v)));
             }
             s.push_str("} ");
+        }
+        if self.plain_leaf_lists {
+            s.push_str("plain-leaf-lists ");
         }
         if !self.faults.is_empty() {
             let mut f: Vec<_> = self.faults.iter().map(|((n, f), k)| format!("#{}.{}:{:?}", n, f, k)).collect();
@@ -91,10 +97,13 @@ pub struct WorldCfg {
     /// null items inside lists of object/interface/union type (the dynamic API cannot express them:
     /// `FieldValue::NULL` at an object position means "an object whose parent value is null")
     pub null_composite_items: bool,
+    /// dynamic schemas only: a resolver may yield null for a non-null leaf (field value or list item) -
+    /// "every combination of field values its resolvers return"
+    pub null_for_nonnull_leaves: bool,
 }
 impl Default for WorldCfg {
     fn default() -> Self {
-        WorldCfg { extra_nodes: 4, non_finite_floats: false, max_list: 3, null_composite_items: true }
+        WorldCfg { extra_nodes: 4, non_finite_floats: false, max_list: 3, null_composite_items: true, null_for_nonnull_leaves: false }
     }
 }
 
@@ -127,6 +136,9 @@ fn gen_leaf(sch: &Sch, s: &mut dyn Src, name: &str, cfg: &WorldCfg) -> WVal {
 fn gen_value(sch: &Sch, s: &mut dyn Src, ty: &Ty, by_type: &HashMap<String, Vec<usize>>, cfg: &WorldCfg, allow_null: bool) -> WVal {
     match ty {
         Ty::NonNull(inner) => {
+            if cfg.null_for_nonnull_leaves && matches!(&**inner, Ty::Named(n) if sch.is_leaf(n)) && s.chance(1, 5) {
+                return WVal::Null;
+            }
             let v = gen_value(sch, s, inner, by_type, cfg, false);
             if v == WVal::Null {
                 // a composite without any node of a possible type is a schema generator bug (every abstract type
@@ -201,5 +213,6 @@ pub fn gen_world(sch: &Sch, s: &mut dyn Src, cfg: &WorldCfg) -> World {
         }
         w.nodes.push(Node { ty: t.clone(), fields });
     }
+    w.plain_leaf_lists = s.choose(3) == 1;
     w
 }
